@@ -105,12 +105,11 @@ def generate(rseed, tier, idx):
             pairs = []
             if kind == "big-fix":
                 # VOLUME: several hundred distinct pairs that all need fixing (strict mode keeps it cheap)
-                k0 = g.randrange(1 << 20)
-                mode, vr = 0, False
-                for j in range(g.choice((300, 600))):
-                    v = (k0 + 104729 * j) % 180
-                    pairs.append([enc("#%02x%02x%02x" % (126 + v % 9, 126 + (v // 9) % 9, 120 + v % 40)),
-                                  enc("#%02x%02x%02x" % (250 - j % 6, 250 - (j // 6) % 6, 255 - (j // 36) % 9))])
+                mode, vr = g.choice((0, 1)), False
+                for j in range(g.choice((400, 700))):
+                    bg = gen.rand_rgb(g)
+                    trgb, _ = gen.pick_text(g, bg, 4.5, g.choice(("fix", "mid")))
+                    pairs.append([enc("#%02x%02x%02x" % trgb), enc("#%02x%02x%02x" % bg)])
             if kind == "big":
                 # a large batch of cheap (already readable) pairs: anything that only happens "for big inputs"
                 k0 = g.randrange(1 << 20)
